@@ -102,6 +102,20 @@ STREAM_INV = ["ChunkConcat", "MatchPrefix", "Complete", "Indices", "NoFalseEof",
               "EofOnlyWhenReaderSaysSo", "FailedIsPrefix"]
 
 
+def c05(ck, thorough):
+    """prefilter transparency"""
+    mc(ck, "ACPrefilterMC", "c05_prefilter",
+       {"Sigma": tla_set([97, 65, 98]), "MaxPats": 2, "MaxPatLen": 2 if not thorough else 3,
+        "MaxHay": 4, "Kinds": tla_set(ALLK), "CIs": tla_set([False, True])},
+       ["AdmissibleIsSound"])
+    mc(ck, "ACSearch", "c05_search",
+       search_consts(ALLK, [False], [False, True], [True], thorough, sigma=(1, 2, 3) if thorough else (1, 2)),
+       SEARCH_INV, ["PositionMonotone"])
+    mc(ck, "ACOverlap", "c05_overlap", overlap_consts([False], [True], thorough),
+       ["OverlapCorrect", "StateSane"], view="View")
+    calls(ck, "c05_prefilter", "prefilter", scale=4 if thorough else 1, mks=ALLK, an="both", flav="all")
+
+
 def c07(ck, thorough):
     """stream search = in-memory search for every read schedule and capacity"""
     mc(ck, "ACStream", "c07_stream", stream_consts(thorough, False), STREAM_INV)
@@ -216,11 +230,20 @@ def c13(ck, thorough):
                         "TLC checks each against ACApi!Outcome and that no cell is missing")
 
 
+def c19(ck, thorough):
+    """bounded work per haystack byte"""
+    mc(ck, "ACSearch", "c19_search",
+       search_consts(ALLK, [False, True], [False, True], [False, True], thorough),
+       SEARCH_INV, ["PositionMonotone"])
+    calls(ck, "c19_work", "work", scale=3 if thorough else 1, mks=ALLK, an="both", flav="all")
+
+
 CHECKS = {
     "C01": (c01, "model_checking"),
     "C02": (c02, "model_checking"),
     "C03": (c03, "model_checking"),
     "C04": (c04, "model_checking"),
+    "C05": (c05, "model_checking"),
     "C07": (c07, "model_checking"),
     "C08": (c08, "model_checking"),
     "C09": (c09, "model_checking"),
@@ -228,6 +251,7 @@ CHECKS = {
     "C11": (c11, "model_checking"),
     "C12": (c12, "model_checking"),
     "C13": (c13, "model_checking"),
+    "C19": (c19, "model_checking"),
     "C14": (c14, "model_checking"),
     "C16": (c16, "model_checking"),
     "C18": (c18, "model_checking"),
